@@ -385,27 +385,67 @@ func c15Independence(c *Ctx, name string) {
 }
 
 // c15ForeignModel: a graph containing a foreign operator type must make Run
-// fail with ErrUnsupportedOperator (shared with C18).
+// fail with ErrUnsupportedOperator (shared with C18), wherever the node sits and
+// whatever its output list looks like (named, unused, empty, only omitted "").
 func c15ForeignModel(c *Ctx, name string) {
-	x := c.R.Tensor(ref.F32, []int{2, 3}, gen.FillSmall, 4)
+	r := c.R
+	x := r.Tensor(ref.F32, []int{2, 3}, gen.FillSmall, 4)
+	relu := func(in, out string) mon.GNode { return mon.GNode{Op: "Relu", Inputs: []string{in}, Outputs: []string{out}} }
+	foreign := mon.GNode{Op: name, Inputs: []string{"a"}, Outputs: []string{"b"}}
+	var nodes []mon.GNode
+	layout := r.Intn(6)
+	desc := ""
+	switch layout {
+	case 0: // in the middle of a chain
+		nodes, desc = []mon.GNode{relu("x", "a"), foreign, relu("b", "y")}, "middle of a chain"
+	case 1: // first node
+		foreign.Inputs = []string{"x"}
+		nodes, desc = []mon.GNode{foreign, relu("b", "y")}, "first node"
+	case 2: // last node, result is the graph output
+		foreign.Outputs = []string{"y"}
+		nodes, desc = []mon.GNode{relu("x", "a"), foreign}, "last node"
+	case 3: // dead node: named output that nobody reads
+		nodes, desc = []mon.GNode{relu("x", "a"), foreign, relu("a", "y")}, "dead node with a named output"
+	case 4: // no outputs at all
+		foreign.Outputs = nil
+		nodes, desc = []mon.GNode{relu("x", "a"), foreign, relu("a", "y")}, "node without outputs"
+	default: // only omitted outputs
+		foreign.Outputs = make([]string, r.Range(1, 3))
+		nodes, desc = []mon.GNode{relu("x", "a"), foreign, relu("a", "y")}, "node with only omitted (\"\") outputs"
+	}
+	if r.Chance(0.3) { // no inputs either / a skipped input
+		for i := range nodes {
+			if nodes[i].Op == name {
+				nodes[i].Inputs = [][]string{nil, {""}, {"", "x"}}[r.Intn(3)]
+				desc += ", inputs " + fmt.Sprint(nodes[i].Inputs)
+			}
+		}
+	}
+	at := 0
+	for i := range nodes {
+		if nodes[i].Op == name {
+			at = i
+		}
+	}
 	g := &mon.Graph{
 		Inputs:  []mon.GInput{{Name: "x", DT: ref.F32, Dims: mon.FixedDims(x.Shape)}},
-		Nodes:   []mon.GNode{{Op: "Relu", Inputs: []string{"x"}, Outputs: []string{"a"}}, {Op: name, Inputs: []string{"a"}, Outputs: []string{"b"}}, {Op: "Relu", Inputs: []string{"b"}, Outputs: []string{"y"}}},
+		Nodes:   nodes,
 		Outputs: []mon.GInput{{Name: "y", NoType: true}},
 	}
+	c.Count("foreign-op-layout:"+desc[:minInt(len(desc), 30)], 1)
 	tr := mon.RunGraphTraced(g, map[string]*ref.T{"x": x}, nil)
 	c.Eval(1)
 	switch {
 	case tr.Outcome.Kind == mon.Panic:
-		c.Violation("foreign-op-model:panic", "%s", tr.Outcome.Describe())
+		c.Violation("foreign-op-model:panic", "%s: %s", desc, tr.Outcome.Describe())
 	case tr.Outcome.Kind == mon.Value:
-		c.Violation("foreign-op-model:run-succeeds", "graph with operator %q ran: %s", name, trunc(tr.Outcome.Describe(), 200))
+		c.Violation("foreign-op-model:run-succeeds", "graph with operator %q (%s) ran: %s", name, desc, trunc(tr.Outcome.Describe(), 200))
 	case !errors.Is(tr.Outcome.Err, ops.ErrUnsupportedOperator):
-		c.Violation("foreign-op-model:wrong-error", "graph with operator %q: %v", name, tr.Outcome.Err)
+		c.Violation("foreign-op-model:wrong-error", "graph with operator %q (%s): %v", name, desc, tr.Outcome.Err)
 	}
 	for _, e := range tr.Events {
-		if e.Phase == "apply" && e.Node >= 1 {
-			c.Violation("foreign-op-model:later-node-applied", "node %d was applied although node 1 has an unsupported operator type", e.Node)
+		if e.Phase == "apply" && e.Node >= at {
+			c.Violation("foreign-op-model:later-node-applied", "node %d was applied although node %d has an unsupported operator type (%s)", e.Node, at, desc)
 		}
 	}
 }
